@@ -99,3 +99,32 @@ Proof.
   apply spec_scanner_ext. exact HF.
 Qed.
 End FS.
+
+(* ---------- non-vacuity: the hypotheses of the top theorem hold for a concrete configuration ----------
+   leaves are characters (denotation: equality), the parser produced a, b, a (occurrences 0, 1, 2);
+   pattern 0 = "ab" (token 1), pattern 1 = "a" followed by "b" (positive lookahead) (token 2) *)
+Definition ex_occ : list N := [97; 98; 97; 98]%N.
+Definition ex_l0 : list src_mode :=
+  [ {| s_pats := [ {| s_tok := 1%N; s_ast := AConcat [ALeaf 0; ALeaf 1]; s_la := None |};
+                   {| s_tok := 2%N; s_ast := ALeaf 2; s_la := Some (true, ALeaf 3) |} ];
+       s_trans := [] |} ].
+Lemma ex_from_source :
+  (forall a b, N.eqb a b = true -> forall c, N.eqb a c = N.eqb b c)
+  /\ assign N N.eqb [] ex_occ = ([0; 1; 0; 1], [97; 98]%N)
+  /\ (forall m, In m ex_l0 -> forall p, In p (s_pats m) -> pat_leaves_ok N ex_occ p)
+  /\ (exists sms0, spec_of_scanner ex_l0 = Some sms0)
+  /\ (exists cms, build_scanner (map (relabel_mode (id_of [0; 1; 0; 1])) ex_l0) = Some cms)
+  /\ (forall m, In m (map (relabel_mode (id_of [0; 1; 0; 1])) ex_l0) -> mode_valid m).
+Proof.
+  split; [intros a b H c; apply N.eqb_eq in H; subst; reflexivity|].
+  split; [vm_compute; reflexivity|].
+  split.
+  { intros m [<-|[]] p [<-|[<-|[]]]; split; cbn.
+    - intros r H. vm_compute in H. inversion H; subst. cbn. repeat split; lia.
+    - exact I.
+    - intros r H. vm_compute in H. inversion H; subst. cbn. lia.
+    - intros r H. vm_compute in H. inversion H; subst. cbn. lia. }
+  split; [destruct (spec_of_scanner ex_l0) as [s|] eqn:E; [eauto|vm_compute in E; discriminate]|].
+  split; [destruct (build_scanner (map (relabel_mode (id_of [0; 1; 0; 1])) ex_l0)) as [s|] eqn:E; [eauto|vm_compute in E; discriminate]|].
+  intros m [<-|[]]. apply mode_validb_ok. vm_compute. reflexivity.
+Qed.
